@@ -21,10 +21,10 @@ RULE = ("histories = all sequences over the mutator alphabet up to the tier's de
         "distinct = distinct operation sequences")
 
 
-def validate_shards(ctx, tla, files):
+def validate_shards(ctx, tla, files, module="Trace_Deque"):
     """Run Trace_Deque on every shard (parallel TLC processes). Returns list of (file, [mismatch lines], consumed)."""
     def one(f):
-        r = ctx.tlc("Trace_Deque", workers=1, timeout=900, cwd=tla, heap="6g", env_extra={"VERIF_TRACE": f})
+        r = ctx.tlc(module, workers=1, timeout=900, cwd=tla, heap="6g", env_extra={"VERIF_TRACE": f})
         mism = [int(x) for x in r.printed("MISMATCH")]
         cons = r.printed("CONSUMED")
         if not cons:
@@ -97,9 +97,9 @@ def record(ctx, args, tag):
     raise core.Inconclusive("more than 16 distinct hanging histories; exploration cannot complete")
 
 
-def judge(ctx, tla, info, label):
+def judge(ctx, tla, info, label, module="Trace_Deque"):
     """Validate recorded shards with TLC; report every rejected history."""
-    res = validate_shards(ctx, tla, info["files"])
+    res = validate_shards(ctx, tla, info["files"], module)
     total = 0
     for f, mism, consumed, length, r in res:
         total += consumed
@@ -108,7 +108,12 @@ def judge(ctx, tla, info, label):
         for line in mism:
             ev = history_at(f, line)
             ops = [{"op": e["op"], "arg": e["arg"]} for e in ev]
-            ctx.report(signature(ev), "%s: real LinkedListQueue returned %s (peek %s, count %s) at the last call; Deque.tla does not"
+            if len(ev) > 60:          # a long linear history: name its shape, keep the whole history in the replay file
+                kinds = sorted({e["op"] for e in ev})
+                sig = "LinkedListQueue: long history (%s, >1000 pending) => %s/%s" % ("+".join(kinds), ev[-1]["r"]["k"], ev[-1]["peek"]["k"]) if len(ev) > 1000 else signature(ev)
+            else:
+                sig = signature(ev)
+            ctx.report(sig, "%s: real LinkedListQueue returned %s (peek %s, count %s) at the last call; Deque.tla does not"
                        % (label, ev[-1]["r"], ev[-1]["peek"], ev[-1]["count"]), {"component": "c06", "history": ops})
     ctx.cov["traces_validated_against_impl"] += info["histories"]
     ctx.cov["evaluations"] += info["events"]
@@ -223,6 +228,9 @@ def run(ctx, replay=None):
             ctx.notes.append("%d non-reproducible paths in tree %s" % (info["nondeterministic_paths"], alpha))
     info = record(ctx, ["--mode", "random", "--n", 2000 if quick else 40000, "--len", 40], "rand")
     judge(ctx, tla, info, "random history")
+    files += info["files"]
+    info = record(ctx, ["--mode", "bulk", "--n", 2500 if quick else 6000, "--rounds", 3 if quick else 5], "bulk")
+    judge(ctx, tla, info, "bulk history (thousands of pending items)", module="Trace_DequeLinear")
     files += info["files"]
     ctx.cov["distinct_nontrivial"] = count_distinct(files)
     with open(files[-1]) as fh:
